@@ -6,7 +6,7 @@ from . import harness as H
 from . import pool as P
 from . import vloop as V
 
-SCHEDULED = ("asyncio-thr", "asyncio-inl", "threadpool")
+SCHEDULED = ("asyncio-thr", "asyncio-inl", "threadpool", "entry-graphql")
 
 
 def run(cfg, scn, ch, free=True, fast=True):
